@@ -1351,13 +1351,18 @@ theorem _root_.PyBasis_make_periodic_eq (b : Basis K) (tol : K) (c : ℕ) (h1 : 
 
 /-! ### method: insert_knot -/
 
-theorem _root_.PyBasis_insert_knot_eq [FloorRing K] (b : Basis K) (tol x0 : K) (h1 : 1 ≤ b.order)
+/-- `insert_knot` outside the cover branch (non-periodic, or periodic with at least `p+k` functions), for any
+    positive recursion fuel: the translated code is wrap + the direct algorithm of the hand model. -/
+theorem insert_knot_fuel_plain [FloorRing K] (f : ℕ) (b : Basis K) (tol x0 : K) (h1 : 1 ≤ b.order)
     (hper : -1 ≤ b.periodic) (hsz : b.order + 1 ≤ b.knots.size)
     (hcol : 0 ≤ b.periodic → (x0 < b.start ∨ x0 > b.stop) → b.stop - b.start ≠ 0)
-    (hmu : ∀ x, wrapX b x0 = .ok x → b.order ≤ b.bisectR x) :
-    PyBasis.insert_knot (ofBasis b) tol x0 = (b.insertKnot x0).map (fun r => (ofBasis r.1, r.2)) := by
+    (hmu : ∀ x, wrapX b x0 = .ok x → b.order ≤ b.insertMu x)
+    (hg : ¬ (b.periodic ≥ 0 ∧
+      (b.knots.size : Int) - (b.order : Int) - (b.periodic + 1) < (b.order : Int) + b.periodic)) :
+    PyBasis.insert_knot_fuel (f + 1) (ofBasis b) tol x0
+      = (b.insertKnotPlain x0).map (fun r => (ofBasis r.1, r.2)) := by
   have h2 : b.order ≤ b.knots.size := by omega
-  unfold PyBasis.insert_knot
+  rw [PyBasis.insert_knot_fuel]
   refine Eq.trans (bind_congr_left (A' := wrapX b x0) ?_) ?_
   · simp only [PyBasis_start_eq b tol h1 h2, PyBasis_end_eq b tol h1 h2, ok_bind, ofBasis_periodic, pure_eq_ok, wrapX]
     by_cases hp : b.periodic ≥ 0
@@ -1369,7 +1374,7 @@ theorem _root_.PyBasis_insert_knot_eq [FloorRing K] (b : Basis K) (tol x0 : K) (
       by_cases hc1 : x0 < b.start
       · simp [hc1]
       · by_cases hc2 : b.stop < x0 <;> simp [hc1, hc2]
-  · unfold Basis.insertKnot
+  · unfold Basis.insertKnotPlain Basis.insertWrap
     simp only []
     have hxw : (if b.periodic ≥ 0 then
         (if x0 < b.start ∨ x0 > b.stop then
@@ -1390,10 +1395,22 @@ theorem _root_.PyBasis_insert_knot_eq [FloorRing K] (b : Basis K) (tol x0 : K) (
     | error e => rfl
     | ok x =>
       have hmu1 := hmu x hw
-      have hmu2 := bisectR_le b x
+      have hmu2 : b.insertMu x ≤ b.knots.size := by
+        have := bisectR_le b x
+        unfold Basis.insertMu
+        split_ifs <;> omega
+      unfold Basis.insertKnotDirect
       simp only [ok_bind, ofBasis_knots, ofBasis_order, ofBasis_periodic, bisect_right_eq,
-        PyBasis.num_functions, len, pure_eq_ok]
-      generalize b.bisectR x = mu at hmu1 hmu2 ⊢
+        PyBasis.num_functions, len, pure_eq_ok, PyBasis_start_eq b tol h1 h2, PyBasis_end_eq b tol h1 h2]
+      rw [if_neg hg]
+      have hclamp : (if b.periodic ≥ 0 then (Except.ok (min ((b.bisectR x : ℕ) : Int) ((b.knots.size : Int) - (b.order : Int))) : PyM Int)
+          else Except.ok ((b.bisectR x : ℕ) : Int)) = .ok ((b.insertMu x : ℕ) : Int) := by
+        unfold Basis.insertMu
+        split_ifs
+        · congr 1; omega
+        · rfl
+      simp only [hclamp, ok_bind]
+      generalize b.insertMu x = mu at hmu1 hmu2 ⊢
       -- `n < 0`: `np.zeros` refuses the shape
       by_cases hneg : (b.knots.size : Int) - (b.order : Int) - (b.periodic + 1) < 0
       · rw [if_pos hneg]
@@ -1694,6 +1711,29 @@ theorem _root_.PyBasis_insert_knot_eq [FloorRing K] (b : Basis K) (tol x0 : K) (
             rfl
       · simp only [hpp, if_false, ok_bind, ofBasis]
 
+/-- **`insert_knot`, outside the cover branch.**  Non-periodic bases, and periodic bases with at least
+    `p + k` functions (`hg`): the translated method equals the hand model.  (`hcol`: no collapsed domain;
+    `hmu`: the insertion index is not below the order, true for sorted knots.)
+    PARTIAL: the cover branch (periodic, fewer than `p + k` functions — the recursive refinement of the
+    `R`-fold cover) is translated and elaborated but not covered by an equality theorem. -/
+theorem _root_.PyBasis_insert_knot_eq [FloorRing K] (b : Basis K) (tol x0 : K) (h1 : 1 ≤ b.order)
+    (hper : -1 ≤ b.periodic) (hsz : b.order + 1 ≤ b.knots.size)
+    (hcol : 0 ≤ b.periodic → (x0 < b.start ∨ x0 > b.stop) → b.stop - b.start ≠ 0)
+    (hmu : ∀ x, wrapX b x0 = .ok x → b.order ≤ b.insertMu x)
+    (hg : ¬ (b.periodic ≥ 0 ∧
+      (b.knots.size : Int) - (b.order : Int) - (b.periodic + 1) < (b.order : Int) + b.periodic)) :
+    PyBasis.insert_knot (ofBasis b) tol x0 = (b.insertKnot x0).map (fun r => (ofBasis r.1, r.2)) := by
+  have hplain : b.insertKnot x0 = b.insertKnotPlain x0 := by
+    unfold Basis.insertKnot Basis.insertKnotPlain
+    cases b.insertWrap x0 with
+    | error e => rfl
+    | ok x =>
+      simp only []
+      rw [if_neg hg]
+  rw [hplain]
+  unfold PyBasis.insert_knot
+  exact insert_knot_fuel_plain 999 b tol x0 h1 hper hsz hcol hmu hg
+
 /-- `insert_knot` on a non-periodic basis with sorted knots anywhere in the closed domain (including
     `x0 = end`, where the code raises `IndexError` for clamped ends): every guard of
     `PyBasis_insert_knot_eq` follows. -/
@@ -1703,7 +1743,7 @@ theorem _root_.PyBasis_insert_knot_eq_sorted [FloorRing K] (b : Basis K) (tol x0
     (hx : b.start ≤ x0) (hx' : x0 ≤ b.stop) :
     PyBasis.insert_knot (ofBasis b) tol x0 = (b.insertKnot x0).map (fun r => (ofBasis r.1, r.2)) := by
   refine PyBasis_insert_knot_eq b tol x0 h1 (by omega) hn
-    (fun h => by omega) ?_
+    (fun h => by omega) ?_ (fun h => by omega)
   intro x hxw
   have hw : wrapX b x0 = .ok x0 := by
     unfold wrapX
@@ -1711,6 +1751,9 @@ theorem _root_.PyBasis_insert_knot_eq_sorted [FloorRing K] (b : Basis K) (tol x0
   rw [hw] at hxw
   injection hxw with hxw
   subst hxw
+  have hmuE : b.insertMu x0 = b.bisectR x0 := by
+    unfold Basis.insertMu; rw [if_neg (by omega)]
+  rw [hmuE]
   obtain ⟨hle, hlo, hhi⟩ := C20.bisectRight_spec b.kn x0 b.knots.size hsorted
   change b.bisectR x0 ≤ b.knots.size at hle
   by_contra hcon
